@@ -1,71 +1,275 @@
 (* C01 - bounding boxes enclose the solid: theorems only.
-   All statements are about the ROps (real number) instance of the model Sdf/Shape.v.
-   enc2/enc3 o: the stored box is ordered and every point with a negative value lies in it.
-   lbinf_*/lb2_*: outside the box the value is at least the max-norm / Euclidean distance to it. *)
+   All statements are about the ROps (real number) instance of the model Sdf/Shape.v, whose
+   k_xxx functions follow the Go constructors + Evaluate statement by statement.
+     enc2/enc3 o   : the stored box is ordered and every point with a negative value lies in it.
+     lbinf_* / lb2_*: outside the box the value is at least the max-norm / Euclidean distance to it
+                     (the operand classes under which Offset/Shell/ExtrudeRounded/Loft keep their material
+                     in the box; lb2 is contained in lbinf).
+   `k_xxx args = Some o` carries the constructor's own parameter checks; hypotheses written out in a
+   statement are exactly what the Go constructor does not check itself. *)
 From Coq Require Import Reals List ZArith.
 From Sdfx Require Import Num.Ops Num.RInst Geo.Vec Geo.Box Geo.BoxR Geo.Mat Sdf.Shape Sdf.ShapeR
-  Sdf.EncloseR Sdf.EncloseComb Sdf.EncloseXform.
+  Sdf.EncloseR Sdf.EncloseComb Sdf.EncloseXform Sdf.EncloseExtr Sdf.EncloseRev Sdf.EncloseRot
+  Sdf.EncloseSlice Sdf.EncloseCone Sdf.EncloseRigid Sdf.EncloseAll Sdf.EncloseEx.
 Import ListNotations.
 Open Scope R_scope.
 
-(* ------------------------------------------------------------ primitives *)
-Theorem C01_circle : forall r o, @k_circle ROps r = Some o -> enc2 o /\ lb2_2 o.
-Proof. exact (fun r o H => conj (circle_enc r o H) (circle_lb2 r o H)). Qed.
+(* ============================================================ primitives *)
+Theorem C01_circle : forall r o, @k_circle ROps r = Some o -> lb2_2 o.
+Proof. exact circle_lb2. Qed.
 Print Assumptions C01_circle.
+Theorem C01_circle_encloses : forall r o, @k_circle ROps r = Some o -> enc2 o.
+Proof. exact circle_enc. Qed.
+Print Assumptions C01_circle_encloses.
 
-(* Box2D does not validate: the box is ordered iff size >= 0 (any rounding) *)
+(* Box2D does not validate: the box is ordered iff size >= 0; any rounding (even > size/2) *)
 Theorem C01_box2 : forall size round o, 0 <= vx size -> 0 <= vy size ->
-  @k_box2 ROps size round = Some o -> enc2 o /\ lbinf_2 o.
-Proof. exact (fun size round o Hx Hy H => conj (box2_enc size round o Hx Hy H) (box2_lbinf size round o Hx Hy H)). Qed.
+  @k_box2 ROps size round = Some o -> lbinf_2 o.
+Proof. exact box2_lbinf. Qed.
 Print Assumptions C01_box2.
+Theorem C01_box2_encloses : forall size round o, 0 <= vx size -> 0 <= vy size ->
+  @k_box2 ROps size round = Some o -> enc2 o.
+Proof. exact box2_enc. Qed.
+Print Assumptions C01_box2_encloses.
 
-Theorem C01_line2 : forall l round o, 0 <= l -> 0 <= round ->
-  @k_line2 ROps l round = Some o -> enc2 o /\ lbinf_2 o.
-Proof. exact (fun l round o Hl Hr H => conj (line2_enc l round o Hl Hr H) (line2_lbinf l round o Hl Hr H)). Qed.
+Theorem C01_line2 : forall l round o, 0 <= l -> 0 <= round -> @k_line2 ROps l round = Some o -> lbinf_2 o.
+Proof. exact line2_lbinf. Qed.
 Print Assumptions C01_line2.
+Theorem C01_line2_encloses : forall l round o, 0 <= l -> 0 <= round -> @k_line2 ROps l round = Some o -> enc2 o.
+Proof. exact line2_enc. Qed.
+Print Assumptions C01_line2_encloses.
 
-Theorem C01_sphere : forall r o, @k_sphere ROps r = Some o -> enc3 o /\ lb2_3 o.
-Proof. exact (fun r o H => conj (sphere_enc r o H) (sphere_lb2 r o H)). Qed.
+Theorem C01_sphere : forall r o, @k_sphere ROps r = Some o -> lb2_3 o.
+Proof. exact sphere_lb2. Qed.
 Print Assumptions C01_sphere.
+Theorem C01_sphere_encloses : forall r o, @k_sphere ROps r = Some o -> enc3 o.
+Proof. exact sphere_enc. Qed.
+Print Assumptions C01_sphere_encloses.
 
-Theorem C01_box3 : forall size round o, @k_box3 ROps size round = Some o -> enc3 o /\ lbinf_3 o.
-Proof. exact (fun size round o H => conj (box3_enc size round o H) (box3_lbinf size round o H)). Qed.
+Theorem C01_box3 : forall size round o, @k_box3 ROps size round = Some o -> lbinf_3 o.
+Proof. exact box3_lbinf. Qed.
 Print Assumptions C01_box3.
+Theorem C01_box3_encloses : forall size round o, @k_box3 ROps size round = Some o -> enc3 o.
+Proof. exact box3_enc. Qed.
+Print Assumptions C01_box3_encloses.
 
-Theorem C01_cylinder : forall h r round o, @k_cylinder ROps h r round = Some o -> enc3 o /\ lbinf_3 o.
-Proof. exact (fun h r round o H => conj (cylinder_enc h r round o H) (cylinder_lbinf h r round o H)). Qed.
+(* cylinder and capsule (round = radius) *)
+Theorem C01_cylinder : forall h r round o, @k_cylinder ROps h r round = Some o -> lbinf_3 o.
+Proof. exact cylinder_lbinf. Qed.
 Print Assumptions C01_cylinder.
+Theorem C01_cylinder_encloses : forall h r round o, @k_cylinder ROps h r round = Some o -> enc3 o.
+Proof. exact cylinder_enc. Qed.
+Print Assumptions C01_cylinder_encloses.
 
-(* ------------------------------------------------------------ unions (plain minimum) *)
-Theorem C01_union3 : forall l o, (forall x, In x l -> enc3 x) -> @k_union3 ROps MinDef l = Some o -> enc3 o.
-Proof. exact union3_enc. Qed.
-Print Assumptions C01_union3.
-Theorem C01_union2 : forall l o, (forall x, In x l -> enc2 x) -> @k_union2 ROps MinDef l = Some o -> enc2 o.
+(* truncated cone, r0 < r1 and r0 > r1, with rounding; Cone3D does not validate the radii *)
+Theorem C01_cone_encloses : forall h r0 r1 round o, 0 <= r0 -> 0 <= r1 ->
+  @k_cone ROps h r0 r1 round = Some o -> enc3 o.
+Proof. exact cone_enc. Qed.
+Print Assumptions C01_cone_encloses.
+
+(* ============================================================ set combinators *)
+(* the material-removing blend PolyMax(k), k > 0, never goes below the maximum *)
+Theorem C01_polymax_ge_max : forall m (a b : R), max_ok m -> Rmax a b <= @max_apply ROps m a b.
+Proof. exact max_apply_ge. Qed.
+Print Assumptions C01_polymax_ge_max.
+
+Theorem C01_union2_encloses : forall l o, (forall x, In x l -> enc2 x) -> @k_union2 ROps MinDef l = Some o -> enc2 o.
 Proof. exact union2_enc. Qed.
-Print Assumptions C01_union2.
+Print Assumptions C01_union2_encloses.
+Theorem C01_union3_encloses : forall l o, (forall x, In x l -> enc3 x) -> @k_union3 ROps MinDef l = Some o -> enc3 o.
+Proof. exact union3_enc. Qed.
+Print Assumptions C01_union3_encloses.
+Theorem C01_intersect2_encloses : forall m s0 s1 o, max_ok m -> @k_intersect2 ROps m s0 s1 = Some o -> enc2 s0 -> enc2 o.
+Proof. exact intersect2_enc. Qed.
+Print Assumptions C01_intersect2_encloses.
+Theorem C01_intersect3_encloses : forall m s0 s1 o, max_ok m -> @k_intersect3 ROps m s0 s1 = Some o -> enc3 s0 -> enc3 o.
+Proof. exact intersect3_enc. Qed.
+Print Assumptions C01_intersect3_encloses.
+Theorem C01_difference2_encloses : forall m s0 s1 o, max_ok m -> @k_difference2 ROps m s0 s1 = Some o -> enc2 s0 -> enc2 o.
+Proof. exact difference2_enc. Qed.
+Print Assumptions C01_difference2_encloses.
+Theorem C01_difference3_encloses : forall m s0 s1 o, max_ok m -> @k_difference3 ROps m s0 s1 = Some o -> enc3 s0 -> enc3 o.
+Proof. exact difference3_enc. Qed.
+Print Assumptions C01_difference3_encloses.
+(* Cut2D/Cut3D: any vector, the zero vector included *)
+Theorem C01_cut2_encloses : forall s a v o, @k_cut2 ROps s a v = Some o -> enc2 s -> enc2 o.
+Proof. exact cut2_enc. Qed.
+Print Assumptions C01_cut2_encloses.
+Theorem C01_cut3_encloses : forall s a n o, @k_cut3 ROps s a n = Some o -> enc3 s -> enc3 o.
+Proof. exact cut3_enc. Qed.
+Print Assumptions C01_cut3_encloses.
+(* arrays: all counts, steps of either sign *)
+Theorem C01_array2_encloses : forall s nx ny step o, @k_array2 ROps MinDef s nx ny step = Some o -> enc2 s -> enc2 o.
+Proof. exact array2_enc. Qed.
+Print Assumptions C01_array2_encloses.
+Theorem C01_array3_encloses : forall s nx ny nz step o, @k_array3 ROps MinDef s nx ny nz step = Some o -> enc3 s -> enc3 o.
+Proof. exact array3_enc. Qed.
+Print Assumptions C01_array3_encloses.
+Theorem C01_elongate2_encloses : forall s h o, @k_elongate2 ROps s h = Some o -> enc2 s -> enc2 o.
+Proof. exact elongate2_enc. Qed.
+Print Assumptions C01_elongate2_encloses.
+Theorem C01_elongate3_encloses : forall s h o, @k_elongate3 ROps s h = Some o -> enc3 s -> enc3 o.
+Proof. exact elongate3_enc. Qed.
+Print Assumptions C01_elongate3_encloses.
+(* ScaleUniform: k > 0 (k < 0 is refuted below) *)
+Theorem C01_scaleuniform2_encloses : forall s k o, 0 < k -> @k_scaleuniform2 ROps s k = Some o -> enc2 s -> enc2 o.
+Proof. exact scaleuniform2_enc. Qed.
+Print Assumptions C01_scaleuniform2_encloses.
+Theorem C01_scaleuniform3_encloses : forall s k o, 0 < k -> @k_scaleuniform3 ROps s k = Some o -> enc3 s -> enc3 o.
+Proof. exact scaleuniform3_enc. Qed.
+Print Assumptions C01_scaleuniform3_encloses.
+(* Offset / Shell: offset >= 0, operand in class lbinf; the result is again in lbinf *)
+Theorem C01_offset2 : forall s off o, 0 <= off -> @k_offset2 ROps s off = Some o -> lbinf_2 s -> lbinf_2 o.
+Proof. exact offset2_lbinf. Qed.
+Print Assumptions C01_offset2.
+Theorem C01_offset3 : forall s off o, 0 <= off -> @k_offset3 ROps s off = Some o -> lbinf_3 s -> lbinf_3 o.
+Proof. exact offset3_lbinf. Qed.
+Print Assumptions C01_offset3.
+Theorem C01_shell3 : forall s th o, @k_shell3 ROps s th = Some o -> lbinf_3 s -> lbinf_3 o.
+Proof. exact shell3_lbinf. Qed.
+Print Assumptions C01_shell3.
+Theorem C01_lbinf_encloses : forall o, lbinf_3 o -> enc3 o.
+Proof. exact lbinf3_enc. Qed.
+Print Assumptions C01_lbinf_encloses.
+Theorem C01_lb2_in_lbinf : forall o, lb2_3 o -> lbinf_3 o.
+Proof. exact lb2_lbinf3. Qed.
+Print Assumptions C01_lb2_in_lbinf.
 
-(* ------------------------------------------------------------ transforms *)
+(* ============================================================ transforms *)
 Theorem C01_inverse33_correct : forall m p, affine33 m -> @m33_determinant ROps m <> 0 ->
-  @m33_mulposition ROps (@m33_inverse ROps m) (@m33_mulposition ROps m p) = p /\
-  @m33_mulposition ROps m (@m33_mulposition ROps (@m33_inverse ROps m) p) = p.
-Proof. exact (fun m p Ha Hd => conj (inverse33_correct m p Ha Hd) (inverse33_correct_r m p Ha Hd)). Qed.
+  @m33_mulposition ROps (@m33_inverse ROps m) (@m33_mulposition ROps m p) = p.
+Proof. exact inverse33_correct. Qed.
 Print Assumptions C01_inverse33_correct.
 Theorem C01_inverse44_correct : forall m p, affine44 m -> @m44_determinant ROps m <> 0 ->
-  @m44_mulposition ROps (@m44_inverse ROps m) (@m44_mulposition ROps m p) = p /\
-  @m44_mulposition ROps m (@m44_mulposition ROps (@m44_inverse ROps m) p) = p.
-Proof. exact (fun m p Ha Hd => conj (inverse44_correct m p Ha Hd) (inverse44_correct_r m p Ha Hd)). Qed.
+  @m44_mulposition ROps (@m44_inverse ROps m) (@m44_mulposition ROps m p) = p.
+Proof. exact inverse44_correct. Qed.
 Print Assumptions C01_inverse44_correct.
+Theorem C01_inverse44_correct_r : forall m p, affine44 m -> @m44_determinant ROps m <> 0 ->
+  @m44_mulposition ROps m (@m44_mulposition ROps (@m44_inverse ROps m) p) = p.
+Proof. exact inverse44_correct_r. Qed.
+Print Assumptions C01_inverse44_correct_r.
 Theorem C01_mulbox33_hull : forall m b q, in_box2 b q -> in_box2 (m33_mulbox m b) (@m33_mulposition ROps m q).
 Proof. exact mulbox33_hull. Qed.
 Print Assumptions C01_mulbox33_hull.
 Theorem C01_mulbox44_hull : forall m b q, in_box3 b q -> in_box3 (m44_mulbox m b) (@m44_mulposition ROps m q).
 Proof. exact mulbox44_hull. Qed.
 Print Assumptions C01_mulbox44_hull.
-Theorem C01_transform2 : forall s m o, affine33 m -> @m33_determinant ROps m <> 0 ->
+(* any matrix with last row (0,0,1) / (0,0,0,1) and non-zero determinant (neither is checked by Go) *)
+Theorem C01_transform2_encloses : forall s m o, affine33 m -> @m33_determinant ROps m <> 0 ->
   @k_transform2 ROps s m = Some o -> enc2 s -> enc2 o.
 Proof. exact transform2_enc. Qed.
-Print Assumptions C01_transform2.
-Theorem C01_transform3 : forall s m o, affine44 m -> @m44_determinant ROps m <> 0 ->
+Print Assumptions C01_transform2_encloses.
+Theorem C01_transform3_encloses : forall s m o, affine44 m -> @m44_determinant ROps m <> 0 ->
   @k_transform3 ROps s m = Some o -> enc3 s -> enc3 o.
 Proof. exact transform3_enc. Qed.
-Print Assumptions C01_transform3.
+Print Assumptions C01_transform3_encloses.
+(* rigid motions keep the Euclidean class *)
+Theorem C01_transform2_rigid_lb2 : forall s m o, rigid33 m -> @k_transform2 ROps s m = Some o -> lb2_2 s -> lb2_2 o.
+Proof. exact transform2_rigid_lb2. Qed.
+Print Assumptions C01_transform2_rigid_lb2.
+Theorem C01_transform3_rigid_lb2 : forall s m o, rigid44 m -> @k_transform3 ROps s m = Some o -> lb2_3 s -> lb2_3 o.
+Proof. exact transform3_rigid_lb2. Qed.
+Print Assumptions C01_transform3_rigid_lb2.
+
+(* ============================================================ 2D -> 3D *)
+(* full revolution and every partial revolution (all quadrant sets selected by theta) *)
+Theorem C01_revolve_encloses : forall s theta o, @k_revolve ROps s theta = Some o -> enc2 s -> enc3 o.
+Proof. exact revolve_enc. Qed.
+Print Assumptions C01_revolve_encloses.
+Theorem C01_extrude_encloses : forall s h o, 0 <= h -> @k_extrude ROps s h = Some o -> enc2 s -> enc3 o.
+Proof. exact extrude_enc. Qed.
+Print Assumptions C01_extrude_encloses.
+Theorem C01_extrude_lbinf : forall s h o, 0 <= h -> @k_extrude ROps s h = Some o -> lbinf_2 s -> lbinf_3 o.
+Proof. exact extrude_lbinf. Qed.
+Print Assumptions C01_extrude_lbinf.
+Theorem C01_twistextrude_encloses : forall s h tw o, 0 <= h -> @k_twistextrude ROps s h tw = Some o -> enc2 s -> enc3 o.
+Proof. exact twistextrude_enc. Qed.
+Print Assumptions C01_twistextrude_encloses.
+Theorem C01_scaleextrude_encloses : forall s h sc o, 0 < h -> 0 < vx sc -> 0 < vy sc ->
+  @k_scaleextrude ROps s h sc = Some o -> enc2 s -> enc3 o.
+Proof. exact scaleextrude_enc. Qed.
+Print Assumptions C01_scaleextrude_encloses.
+Theorem C01_scaletwistextrude_encloses : forall s h tw sc o, 0 < h -> 0 < vx sc -> 0 < vy sc ->
+  @k_scaletwistextrude ROps s h tw sc = Some o -> enc2 s -> enc3 o.
+Proof. exact scaletwistextrude_enc. Qed.
+Print Assumptions C01_scaletwistextrude_encloses.
+Theorem C01_extruderounded : forall s h round o, 0 <= h -> @k_extruderounded ROps s h round = Some o -> lbinf_2 s -> lbinf_3 o.
+Proof. exact extruderounded_lbinf. Qed.
+Print Assumptions C01_extruderounded.
+Theorem C01_loft : forall s0 s1 h round o, @k_loft ROps s0 s1 h round = Some o -> lbinf_2 s0 -> lbinf_2 s1 -> lbinf_3 o.
+Proof. exact loft_lbinf. Qed.
+Print Assumptions C01_loft.
+Theorem C01_loft_unrounded_encloses : forall s0 s1 h o, @k_loft ROps s0 s1 h 0 = Some o -> enc2 s0 -> enc2 s1 -> enc3 o.
+Proof. exact loft0_enc. Qed.
+Print Assumptions C01_loft_unrounded_encloses.
+
+(* ============================================================ rotations, slices *)
+Theorem C01_rotatecopy2_encloses : forall s n o, @k_rotatecopy2 ROps s n = Some o -> enc2 s -> enc2 o.
+Proof. exact rotatecopy2_enc. Qed.
+Print Assumptions C01_rotatecopy2_encloses.
+Theorem C01_rotatecopy3_encloses : forall s n o, @k_rotatecopy3 ROps s n = Some o -> enc3 s -> enc3 o.
+Proof. exact rotatecopy3_enc. Qed.
+Print Assumptions C01_rotatecopy3_encloses.
+(* any copy count, any affine step matrix with non-zero determinant *)
+Theorem C01_rotateunion2_encloses : forall s num step o, affine33 step -> @m33_determinant ROps step <> 0 ->
+  @k_rotateunion2 ROps MinDef s num step = Some o -> enc2 s -> enc2 o.
+Proof. exact rotateunion2_enc. Qed.
+Print Assumptions C01_rotateunion2_encloses.
+Theorem C01_rotateunion3_encloses : forall s num step o, affine44 step -> @m44_determinant ROps step <> 0 ->
+  @k_rotateunion3 ROps MinDef s num step = Some o -> enc3 s -> enc3 o.
+Proof. exact rotateunion3_enc. Qed.
+Print Assumptions C01_rotateunion3_encloses.
+(* Slice2D: every normal n <> 0 (all four branches for the in-plane axes) *)
+Theorem C01_slice2_encloses : forall s a n o, 0 < dot3 n n -> @k_slice2 ROps s a n = Some o -> enc3 s -> enc2 o.
+Proof. exact slice2_enc. Qed.
+Print Assumptions C01_slice2_encloses.
+
+(* ============================================================ all compositions *)
+(* wf2/wf3 (Sdf/EncloseAll.v) collect exactly the side conditions of the lemmas above; for
+   Offset/Shell/ExtrudeRounded/Loft(round > 0) the operand must be in one of the syntactic classes
+   cinf (LbInf) / cl2 (Lb2).  Blend unions (PolyMin etc.) are not well-formed: they add material. *)
+Theorem C01_all_compositions : forall s o, wf3 s -> @build3 ROps s = Some o -> enc3 o.
+Proof. exact all_compositions3. Qed.
+Print Assumptions C01_all_compositions.
+Theorem C01_all_compositions_2d : forall s o, wf2 s -> @build2 ROps s = Some o -> enc2 o.
+Proof. exact all_compositions2. Qed.
+Print Assumptions C01_all_compositions_2d.
+Theorem C01_all_compositions_lbinf : forall s o, wf3 s -> cinf3 s \/ cl2_3 s -> @build3 ROps s = Some o -> lbinf_3 o.
+Proof. exact all_compositions3_lbinf. Qed.
+Print Assumptions C01_all_compositions_lbinf.
+Theorem C01_all_compositions_lb2 : forall s o, wf3 s -> cl2_3 s -> @build3 ROps s = Some o -> lb2_3 o.
+Proof. exact all_compositions3_lb2. Qed.
+Print Assumptions C01_all_compositions_lb2.
+
+(* ============================================================ refutations: wf cannot be dropped *)
+(* Offset3D over a rotated plain extrusion (well-formed, but outside both classes):
+   a point with negative value outside the (ordered) box *)
+Theorem C01_offset_outside_class_refuted :
+  exists s off o p, wf3 s /\ 0 <= off /\ @build3 ROps (Offset3 s off) = Some o /\
+                    ordered3 (bb3 o) /\ ev3 o p < 0 /\ ~ in_box3 (bb3 o) p.
+Proof. exact offset_outside_class_refuted. Qed.
+Print Assumptions C01_offset_outside_class_refuted.
+Theorem C01_offset_witness_outside_classes : wf3 rot_extrusion /\ ~ (cinf3 rot_extrusion \/ cl2_3 rot_extrusion).
+Proof. exact (conj rot_extrusion_wf rot_extrusion_outside). Qed.
+Print Assumptions C01_offset_witness_outside_classes.
+(* ScaleUniform3D(Sphere(1), -1): the value is multiplied by k < 0, the solid is turned inside out *)
+Theorem C01_scaleuniform_negative_refuted :
+  exists o p, @build3 ROps (ScaleUniform3 (Sphere 1) (- (1))) = Some o /\
+              ordered3 (bb3 o) /\ ev3 o p < 0 /\ ~ in_box3 (bb3 o) p.
+Proof. exact scaleuniform_negative_refuted. Qed.
+Print Assumptions C01_scaleuniform_negative_refuted.
+(* a negative offset over a non-isometric transform of a sphere: enclosure of the operand is not enough *)
+Theorem C01_offset_negative_refuted :
+  exists s o p, wf3 s /\ @build3 ROps (Offset3 s (- (1 / 4))) = Some o /\
+                ordered3 (bb3 o) /\ ev3 o p < 0 /\ ~ in_box3 (bb3 o) p.
+Proof. exact offset_negative_refuted. Qed.
+Print Assumptions C01_offset_negative_refuted.
+
+(* ============================================================ the hypotheses are satisfiable *)
+Example C01_ex_plate : wf3 ex_plate /\ (exists o, @build3 ROps ex_plate = Some o) /\
+  forall o, @build3 ROps ex_plate = Some o -> enc3 o.
+Proof. exact (conj ex_plate_wf (conj ex_plate_builds ex_plate_enclosed)). Qed.
+Example C01_ex_ring : wf3 ex_ring /\ forall o, @build3 ROps ex_ring = Some o -> enc3 o.
+Proof. exact (conj ex_ring_wf ex_ring_enclosed). Qed.
+Example C01_ex_twisted_slice : wf3 ex_twisted_slice /\ forall o, @build3 ROps ex_twisted_slice = Some o -> enc3 o.
+Proof. exact (conj ex_twisted_slice_wf ex_twisted_slice_enclosed). Qed.
